@@ -19,6 +19,15 @@ def h_defs_dagStoreImpl_fileLocation : Nat := 0x9fdc96735713d546
 /-- hash of the normalised skeleton of exists (internal/persistence/local/dag_store.go) -/
 def h_defs__exists : Nat := 0x5b9d5565edcdccaf
 
+/-- hash of the normalised skeleton of writeFileAtomic (internal/persistence/local/dag_store.go) -/
+def h_defs__writeFileAtomic : Nat := 0x877ea0f423a3a73b
+
+/-- hash of the normalised skeleton of ensureDirExist (internal/persistence/local/dag_store.go) -/
+def h_defs_dagStoreImpl_ensureDirExist : Nat := 0x48b8b553420bc2d7
+
+/-- hash of the normalised skeleton of checkExtension (internal/persistence/local/dag_store.go) -/
+def h_defs__checkExtension : Nat := 0xaf2889c5c023fc4f
+
 /-- hash of the normalised skeleton of CreateDAG (internal/client/client.go) -/
 def h_defs_client_CreateDAG : Nat := 0x38f9312946999665
 
